@@ -29,6 +29,9 @@ func runC08(c *Ctx, tier string) {
 	} else {
 		r.OK("source-registry-unchanged", "Filter", fn.Pos(), true, "MOD(Filter, receiver) = ∅")
 	}
+	// "unknown names are rejected": name validation asks the lookups' ByName, so ByName must answer
+	// from the table register filled and from nothing else (registry coherence, C12)
+	c12Registry(c, r)
 	r.Finish()
 }
 
@@ -44,7 +47,55 @@ type marker struct{ s string }
 
 // filterChecks evaluates the one-iteration decision table of Filter.
 // selection=false restricts the obligations to identity/configuration (C07).
+// configAccessors: SetConfiguration stores its argument as it is and
+// GetConfiguration hands back what was stored — the configuration a registry
+// runs its lints with is the one it was given (not one re-bound against the
+// registry's contents at the time of the call, which in Filter is still empty).
+func configAccessors(c *Ctx, r *Report) {
+	noInline := func(*ssa.Function) bool { return false }
+	set := c.Method("lint", "registryImpl", "SetConfiguration")
+	outs, abort := Enumerate(set, SymOpts{Inline: noInline})
+	bad := abort
+	if bad == "" {
+		if len(outs) != 1 || outs[0].Kind != "return" {
+			bad = fmt.Sprintf("SetConfiguration has %d paths", len(outs))
+		} else {
+			recv, cfg := set.Params[0].Name(), set.Params[1].Name()
+			stores := 0
+			for _, ev := range outs[0].Trace {
+				switch {
+				case ev.Kind == "store" && ev.Name == "&"+recv+".configuration":
+					stores++
+					if len(ev.Args) != 1 || ev.Args[0].String() != cfg {
+						bad = "SetConfiguration stores " + ev.Args[0].String() + " instead of the configuration it was given"
+					}
+				case ev.Kind == "call" && (strings.Contains(ev.Name, "sync.") || strings.Contains(ev.Name, "atomic")):
+				case ev.Kind == "defer":
+				default:
+					bad = "SetConfiguration does more than store its argument: " + ev.String()
+				}
+			}
+			if stores != 1 && bad == "" {
+				bad = fmt.Sprintf("SetConfiguration stores the configuration %d times", stores)
+			}
+		}
+	}
+	r.Check(bad == "", "filter-config", "SetConfiguration", set.Pos(), "stores its argument unchanged", bad)
+	get := c.Method("lint", "registryImpl", "GetConfiguration")
+	gouts, gabort := Enumerate(get, SymOpts{Inline: noInline})
+	bad = gabort
+	if bad == "" {
+		for _, o := range gouts {
+			if o.Kind != "return" || len(o.Results) != 1 || o.Results[0].String() != get.Params[0].Name()+".configuration" {
+				bad = "GetConfiguration does not return the stored configuration on every path"
+			}
+		}
+	}
+	r.Check(bad == "", "filter-config", "GetConfiguration", get.Pos(), "returns the stored configuration", bad)
+}
+
 func filterChecks(c *Ctx, r *Report, selection bool) {
+	configAccessors(c, r)
 	fn := c.Method("lint", "registryImpl", "Filter")
 	if why := onlyIndexCarriedOwn(fn); why != "" {
 		r.Unk("filter-selection", "Filter|loop-shape", fn.Pos(), why)
